@@ -41,6 +41,7 @@ package forwarder
 //@ requires req != nil
 //@ pure
 //@ ensures err is martian.ErrorStatus ==> code == err.(martian.ErrorStatus).Status
+//@ ensures errStatus(err) != -1 ==> code == errStatus(err)
 //@ ensures errStatus(err) == -1 ==> code == 0
 
 // ---- access control closures (C04) ----
@@ -89,10 +90,76 @@ package forwarder
 //@ pure
 //@ ensures code == 0 || code == 500
 
-//@ func handleDenyError, handleProhibitedError, handleWindowsNetError, handleNetError, handleTLSRecordHeader, handleTLSCertificateError, handleTLSECHRejectionError, handleTLSAlertError, handleStatusText
-//@ trusted
+//@ pure forwarder.tlsRecordHeaderLooksLikeHTTP forwarder.describeCertificates forwarder.errno http.StatusText
+
+// Connection failures: 504 for a timed-out operation, 502 otherwise.
+//@ func handleNetError
+//@ property C12
+//@ requires req != nil
+//@ pure
+//@ ensures asNetOp(err) != nil && opTimeout(asNetOp(err)) ==> code == 504
+//@ ensures asNetOp(err) != nil && !opTimeout(asNetOp(err)) ==> code == 502
+//@ ensures asNetOp(err) == nil ==> code == 0
+
+// TLS failures: 502.
+//@ func handleTLSRecordHeader
+//@ property C12
+//@ requires req != nil
+//@ pure
+//@ ensures asRecHdr(err) ==> code == 502
+//@ ensures !asRecHdr(err) ==> code == 0
+
+//@ func handleTLSCertificateError
+//@ property C12
+//@ requires req != nil
+//@ pure
+//@ ensures asCertErr(err) != nil ==> code == 502
+//@ ensures asCertErr(err) == nil ==> code == 0
+
+//@ func handleTLSECHRejectionError
+//@ property C12
+//@ requires req != nil
+//@ pure
+//@ ensures asECH(err) != nil ==> code == 502
+//@ ensures asECH(err) == nil ==> code == 0
+
+//@ func handleTLSAlertError
+//@ property C12
+//@ requires req != nil
+//@ pure
+//@ ensures asAlert(err) ==> code == 502
+//@ ensures !asAlert(err) ==> code == 0
+
+// (not a Windows build: never claims an error)
+//@ func handleWindowsNetError
+//@ property C12
+//@ requires req != nil
+//@ pure
+//@ ensures code == 0
+
+// Refusals by policy: 403 and 451.
+//@ func handleDenyError
+//@ property C04 C12
+//@ requires req != nil
+//@ pure
+//@ ensures asDeny(err) ==> code == 403
+//@ ensures !asDeny(err) ==> code == 0
+
+//@ func handleProhibitedError
+//@ property C04 C12
+//@ requires req != nil
+//@ pure
+//@ ensures asProhibited(err) ==> code == 451
+//@ ensures !asProhibited(err) ==> code == 0
+
+// An upstream proxy's status text surfacing as a URL error: only 4xx/5xx.
+//@ func handleStatusText
+//@ property C12
+//@ requires req != nil && req.URL != nil
 //@ pure
 //@ ensures code == 0 || (400 <= code && code < 600)
+//@ loop 0:
+//@   invariant 400 <= i && i <= 600
 
 //@ globalinv errIs(ErrProxyAuthentication, ErrProxyAuthentication)
 
@@ -101,13 +168,31 @@ package forwarder
 // and carries a Proxy-Authenticate challenge; the body length is declared.
 //@ func (*HTTPProxy).errorResponse
 //@ property C04 C12
-//@ requires hp != nil && req != nil && err != nil && hp.metrics != nil && hp.log != nil
+//@ requires hp != nil && req != nil && req.URL != nil && err != nil && hp.metrics != nil && hp.log != nil
 //@ modifies *
 //@ ensures result != nil && result.Header != nil && result.StatusCode != 0
 //@ ensures result.StatusCode == 407 ==> hasPA(result.Header)
 //@ ensures ("X-Forwarder-Error" in result.Header)
+// classification, in the order of the handler list:
+//@ ensures asNetOp(err) != nil ==> result.StatusCode == ite(opTimeout(asNetOp(err)), 504, 502)
+//@ ensures asNetOp(err) == nil && (asRecHdr(err) || asCertErr(err) != nil || asECH(err) != nil || asAlert(err)) ==> result.StatusCode == 502
+//@ ensures asNetOp(err) == nil && !asRecHdr(err) && asCertErr(err) == nil && asECH(err) == nil && !asAlert(err) && errStatus(err) != -1 && errStatus(err) != 0 ==> result.StatusCode == errStatus(err)
+//@ ensures asNetOp(err) == nil && !asRecHdr(err) && asCertErr(err) == nil && asECH(err) == nil && !asAlert(err) && errStatus(err) == -1 && errIs(err, ErrProxyAuthentication) ==> result.StatusCode == 407
+//@ ensures asNetOp(err) == nil && !asRecHdr(err) && asCertErr(err) == nil && asECH(err) == nil && !asAlert(err) && errStatus(err) == -1 && !errIs(err, ErrProxyAuthentication) && asDeny(err) ==> result.StatusCode == 403
+//@ ensures asNetOp(err) == nil && !asRecHdr(err) && asCertErr(err) == nil && asECH(err) == nil && !asAlert(err) && errStatus(err) == -1 && !errIs(err, ErrProxyAuthentication) && !asDeny(err) && asProhibited(err) ==> result.StatusCode == 451
+//@ ensures asNetOp(err) == nil && !asRecHdr(err) && asCertErr(err) == nil && asECH(err) == nil && !asAlert(err) && errStatus(err) == -1 && !errIs(err, ErrProxyAuthentication) && !asDeny(err) && !asProhibited(err) ==> 400 <= result.StatusCode && result.StatusCode < 600
 //@ loop 0:
-//@   invariant hp.log != nil && hp.metrics != nil
+//@   invariant hp.log != nil && hp.metrics != nil && req.URL != nil
+//@   invariant rangeindex >= 0 ==> code == 0
+//@   invariant rangeindex >= 1 ==> asNetOp(err) == nil
+//@   invariant rangeindex >= 2 ==> !asRecHdr(err)
+//@   invariant rangeindex >= 3 ==> asCertErr(err) == nil
+//@   invariant rangeindex >= 4 ==> asECH(err) == nil
+//@   invariant rangeindex >= 5 ==> !asAlert(err)
+//@   invariant rangeindex >= 6 ==> errStatus(err) == -1 || errStatus(err) == 0
+//@   invariant rangeindex >= 7 ==> !errIs(err, ErrProxyAuthentication)
+//@   invariant rangeindex >= 8 ==> !asDeny(err)
+//@   invariant rangeindex >= 9 ==> !asProhibited(err)
 //@   invariant len(handlers) == 12 && handlers[0] == handleWindowsNetError && handlers[1] == handleNetError && handlers[2] == handleTLSRecordHeader && handlers[3] == handleTLSCertificateError && handlers[4] == handleTLSECHRejectionError && handlers[5] == handleTLSAlertError && handlers[6] == handleMartianErrorStatus && handlers[7] == handleAuthenticationError && handlers[8] == handleDenyError && handlers[9] == handleProhibitedError && handlers[10] == handleContextCancelationError && handlers[11] == handleStatusText
 
 //@ pred hasPA(h http.Header) = ("Proxy-Authenticate" in h) && len(h["Proxy-Authenticate"]) > 0
